@@ -1,0 +1,5 @@
+//go:build !verif
+
+package dns
+
+func verifHook(string, []byte) {}
